@@ -518,7 +518,7 @@ gcsim("C14", "GC requests are neither lost nor deadlocked",
       level_text="All park/unpark/last-parked/goal transitions the runs produce are checked; liveness only as bounded progress: every request made during the run is served before the run ends.",
       note="'Eventually' is decided as 'within the watchdog budget with all threads idle', which is the strongest runtime monitoring can give.",
       design_ref="2/C14",
-      shards=lambda tier, seed: sched_shards(tier, seed, 14),
+      shards=lambda tier, seed: sched_shards(tier, seed, 14) + sched_shards(tier, seed, 141, scenario="fork", plans=["SemiSpace", "GenImmix", "Immix", "MarkSweep", "ConcurrentImmix"]),
       floors={"quick": {"gc_requests": 1500, "gc_starts": 1500, "last_parked_wakeall": 5000, "last_parked_parkself": 5000, "distinct_scheduler_states": 150, "user_gc_round_trips": 300}})
 
 gcsim("C15", "Work buckets open in stage order and every packet runs exactly once",
@@ -627,14 +627,19 @@ unit("C17", "Concurrent forwarding copies an object once and all tracers agree",
           "(attempt_to_forward, spin_and_get_forwarded_object, forward_object, clear_forwarding_bits, the real ImmixSpace::attempt_mark and is_object_pinned), 737k objects per quick run; six metadata layouts "
           "(forwarding bits inside the pointer word at shift 0 / 62 / negative offset - single store; separate header bits - two stores; side bits with 4 objects per metadata byte) x five plans (copyspace, immix-forward, already-marked, pinned, "
           "copy-reserve-exhausted = winner declines and clears the bits); failpoints widen the window between copy and publish, between the pointer and the bits store, and at the loser's entry; non-trivial = >= 2 contenders observed spinning; "
-          "distinct = (layout, plan, #threads, #spinners, who saw FORWARDED)",
+          "distinct = (layout, plan, #threads, #spinners, who saw FORWARDED); plus gcsim runs of the copying plans (SemiSpace, GenCopy, GenImmix, Immix, StickyImmix; variants A, B, C) with 8 GC workers and the "
+          "forwarding failpoints armed inside the real trace_object: every ObjectModel::copy of every pause is logged and an object id copied twice in one collection is a violation (the heap oracle of C01 checks that all slots agree on the new reference)",
      technique="exactly-once / agreement checker over the recorded (thread, returned reference) multiset and the copy counter of real racing threads, with failpoint-widened windows",
      level_text="Per object: ObjectModel::copy called once (0 when the winner declines), exactly one tracer saw the untriggered state, all tracers return the winner's copy (or the unmoved object), no returned word is a stale/half-written pointer or carries state bits; "
                 "final bits/pointer/mark checked. Interleavings = what 2-16 threads on 16 cores plus failpoints produce.",
      note="The trace_object sequences are replicated by the harness from policy/copyspace.rs and immixspace.rs (each needs a real space and GCWorker); the same property is also observed end-to-end by gcsim (copy count per object per GC in ObjectModel::copy).",
      design_ref="2/C17", parallel=2,
+     shards=lambda tier, seed: [dict(pkg="units", variant="A", args=["C17"])] + [
+         gc_shard(v, plan, _rng(seed, 17 + i), 14000 if tier == "quick" else 40000, workers=8, mutators=_rng(seed, 170 + i).choice([1, 2, 4]), heap=32, stress=100000, flags=["failpoints"])
+         for i, (v, plan) in enumerate([("A", "SemiSpace"), ("A", "GenCopy"), ("A", "GenImmix"), ("A", "Immix"), ("A", "StickyImmix"), ("B", "GenImmix"), ("C", "SemiSpace")] * (1 if tier == "quick" else 4))],
      floors={"quick": {"objects_traced": 360000, "objects_with_2plus_spinning_contenders": 60000, "objects_where_a_tracer_saw_FORWARDED": 20000, "declined_objects_won_again_after_clear": 100000,
-                       "failpoint_forward_window_hits": 10000, "failpoint_forward_loser_hits": 8000, "selftest_mutants_caught": 10}})
+                       "failpoint_forward_window_hits": 10000, "failpoint_forward_loser_hits": 8000, "selftest_mutants_caught": 10,
+                       "gcsim_copies_checked_for_exactly_once": 100000, "gcsim_pauses_with_copies": 500}})
 
 
 def c18_shards(tier, seed):
